@@ -117,7 +117,7 @@ func VerifC28Subscriptions() {
 	if tm := m.peerChannels["y"]; tm != nil {
 		_, otherY = tm[other]
 	}
-	s := &streamHandler{m: m, tpl: me, peerID: me.PeerID, ctx: context.Background()}
+	s := &streamHandler{m: m, le: m.le, tpl: me, peerID: me.PeerID, ctx: context.Background()}
 	n := rt.IntRange("ops", 1, 2)
 	want := map[string]bool{"x": pre["x"], "y": pre["y"]}
 	var ops []*SubscriptionOpts
